@@ -840,7 +840,13 @@ func burstOnce(c *Case, rep int) error {
 				return err
 			}
 			if prev, dup := owner[r.Msg.Tag]; dup && prev != id.src {
-				return fmt.Errorf("client %d round %d: two outstanding requests carry tag %d (callers %d and %d of %d callers + %d Tags issuing at the same moment)", rep, k, r.Msg.Tag, prev, id.src, n, nt)
+				name := func(s int) string {
+					if s >= n {
+						return fmt.Sprintf("Tag %d", s-n)
+					}
+					return fmt.Sprintf("caller %d", s)
+				}
+				return fmt.Errorf("client %d round %d: two outstanding requests carry tag %d (%s and %s; %d callers + %d Tags issuing at the same moment)", rep, k, r.Msg.Tag, name(prev), name(id.src), n, nt)
 			}
 			owner[r.Msg.Tag] = id.src
 			batch = append(batch, r)
